@@ -1088,6 +1088,15 @@ pub fn run_c19w(o: &crate::Opts) {
     ];
     let sessions = if o.thorough { 6 } else { 1 };
     let mut n: u64 = 0;
+    // directed: texts that assemble with a warning on standard output, each saved twice in a row
+    // (a re-check of an unchanged text must print what the first one printed), around other texts
+    if o.shard == 5 % o.nshards {
+        let w1 = pool[0].as_bytes().to_vec();
+        let w2 = pool[1].as_bytes().to_vec();
+        let srcs: Vec<Vec<u8>> = vec![w1.clone(), w1.clone(), pool[5].as_bytes().to_vec(), w2.clone(), w2.clone(), w1.clone(), w1];
+        let obs = run_one(&dir, 0, &srcs);
+        sink.put(&req_of(0, &srcs), &obs);
+    }
     for _ in 0..sessions {
         let len = rng.range(3, 6) as usize;
         let mut srcs: Vec<String> = (0..len).map(|_| (*rng.pick(&pool)).to_string()).collect();
